@@ -26,7 +26,7 @@ func HC19_Isolation() {
 	}
 	pf := [5]int{3, 8, 1, 4, 9}[vChoice("prefix", 2+3*vTier())]
 	x1.prefix(pf)
-	x2.prefix([5]int{3, 1, 8, 9, 4}[vChoice("prefix2", 1+4*vTier())])
+	x2.prefix([5]int{3, 1, 8, 9, 4}[vChoice("prefix2", 1+vTier())])
 	x2.check()
 	// operations on world 1 only
 	vFootprintStart()
